@@ -84,6 +84,20 @@ CHECKS = {
             "after a round trip, after non-contributing changes, and across processes; with nothing contributing it must be a fresh UUIDv4.",
             "Trusted: SHA-1/UUIDv5 from hashlib/uuid; contributing lists transcribed from the STIX 2.1 text; floats tagged through Python's shortest repr.",
             "DESIGN.md §3.3"),
+    "C09": ("patterns", "TLA+ STIX patterning semantics (bindings over bounded observation sequences); TLC proves every documented rewrite sound for all operand choices; trace validation of the implementation's verdicts and normal forms against Sem",
+            "TLC checks on spec/PatternSem.tla + MC_PatternLaws.tla that all 24 documented rewrites are sound for every operand choice (1600 instances over 313 observation sequences each) and that "
+            "non-laws (observation-level AND idempotence, FOLLOWEDBY commutation, absorption under REPEATS) are distinguished. For generated patterns the library's verdict on (pattern, documented rewrite), "
+            "(pattern, near-rewrite), (pattern, sub-expression) and the library's own normal form are judged by TLC evaluating Sem on both sides (soundness, recognition of single documented rewrites), "
+            "plus totality on valid patterns of the whole grammar and reflexivity / symmetry / transitivity / find_equivalent_patterns on batches.",
+            "Trusted: the stix2-patterns grammar decides validity; the bounded universe (one type, two integer properties, <=3 observations, 2 instants) limits which inequivalences are visible; normal form read via _get_pattern_normalizer.",
+            "DESIGN.md §3.5"),
+    "C10": ("patterns", "TLA+ printing/grouping/normal-structure operators on the pattern AST; TLC checks grouping preserves structure and meaning and enumerates ASTs with their token sequences; trace validation of parse/print round trips by structure (Norm) and meaning (Sem)",
+            "spec/PatternPrint.tla places parentheses where the grammar needs them and defines structure up to redundant grouping; TLC checks this on an enumerated AST set (every comparison operator with and "
+            "without NOT, both precedence levels, all qualifiers, stacked qualifiers) and hands the token sequences to the replayer. Each AST goes text -> create_pattern_object -> str -> parse, and separately "
+            "is assembled from the public model classes and printed; structure and (inside the vocabulary) meaning are compared by TLC, fixed point of print o parse is required. Random ASTs add every constant "
+            "kind, escapes, quoted/indexed/reference path steps.",
+            "Trusted: stix2-patterns grammar for validity; the harness's own printer and projection (harness/impl_patterns.py); out-of-vocabulary structure compared by the harness's norm().",
+            "DESIGN.md §3.5"),
 }
 
 NOT_YET = {}
